@@ -40,6 +40,9 @@ func fillTime(nm string, v *time.Time) {
 	s := vrt.I64(nm + ".sec")
 	ns := vrt.I64(nm + ".nsec")
 	vrt.Assume(vrt.And(ns >= 0, ns < 1000000000))
+	if FillSmall {
+		vrt.Assume(vrt.And(vrt.And(s >= -64, s < 64), ns < 64))
+	}
 	*v = time.Unix(s, ns)
 }
 
@@ -122,17 +125,15 @@ func refLE32(buf []byte, v uint32) []byte {
 	return buf
 }
 
-// refTimeBodyPlain: plenc's own time layout {1: zig-zag seconds, 2: zig-zag nanoseconds}.
+// refTimeBodyPlain: plenc's own time layout {1: zig-zag seconds, 2: zig-zag
+// nanoseconds}; both fields are always written (pinned by testdata/time.golden:
+// 08 <secs> 10 00).
 func refTimeBodyPlain(buf []byte, t *time.Time) []byte {
 	sec, ns := t.Unix(), int64(int32(t.Nanosecond()))
-	if sec != 0 {
-		buf = refTag(buf, 0, 1)
-		buf = refVarint(buf, refZigZag(sec))
-	}
-	if ns != 0 {
-		buf = refTag(buf, 0, 2)
-		buf = refVarint(buf, refZigZag(ns))
-	}
+	buf = refTag(buf, 0, 1)
+	buf = refVarint(buf, refZigZag(sec))
+	buf = refTag(buf, 0, 2)
+	buf = refVarint(buf, refZigZag(ns))
 	return buf
 }
 
@@ -143,14 +144,10 @@ func refTimeBody(buf []byte, t *time.Time, c refCfg) []byte {
 		return refTimeBodyPlain(buf, t)
 	}
 	sec, ns := t.Unix(), int32(t.Nanosecond())
-	if sec != 0 {
-		buf = refTag(buf, 0, 1)
-		buf = refVarint(buf, uint64(sec))
-	}
-	if ns != 0 {
-		buf = refTag(buf, 0, 2)
-		buf = refVarint(buf, uint64(uint32(ns)))
-	}
+	buf = refTag(buf, 0, 1)
+	buf = refVarint(buf, uint64(sec))
+	buf = refTag(buf, 0, 2)
+	buf = refVarint(buf, uint64(uint32(ns)))
 	return buf
 }
 
